@@ -119,8 +119,8 @@ PROPS = {
                 "and constants, sleeping loop, long sleep, swap! loop, apply, deref of a body ignoring cancellation, deref of a pending future shared with a body started by an earlier evaluation "
                 "under an unrelated context; wrapped in map/reduce/swap!/update callbacks, eval, future deref, do/let/if, try/catch/finally nests to depth 4 whose handlers and finally bodies loop, "
                 "sleep, return, rethrow; plus handler and finally probes, programs that dereference cancelled futures, bursts of ~300 futures, non-tail recursions that are thousands of frames "
-                "deep when the context ends, swap! through builtins whose callback reads the atom, nested handler probes (the inner handler runs, the outer one does not), and bodies that fail at "
-                "once with an ordinary error so that it is the handler the cancellation cuts short), a step cost of 1us..1ms with optional jitter, and a cancellation (kind x instant, log-uniform up to ~32k steps). "
+                "deep when the context ends, swap! through builtins whose callback reads the atom, nested handler probes (the inner handler runs, the outer one does not), bodies that fail at "
+                "once with an ordinary error so that it is the handler the cancellation cuts short, and def/defmacro forms whose value expression never finishes), a step cost of 1us..1ms with optional jitter, and a cancellation (kind x instant, log-uniform up to ~32k steps). "
                 "non-trivial = the context ended while the program was running; distinct = distinct (program text, cancellation kind, instant, interleaving) hash",
         "assumptions": COMMON_ASSUMPTIONS + ["the word 'timeout' in the error message identifies a timeout error"],
         "must_hit": ["fault:deadline", "fault:cancel-at-step", "fault:parent-cancel-at-step", "fault:ended-at-entry", "fault:deadline-parent", "wake:sleep.ctx", "wake:future.deref.ctx", "handler_probe_ok", "shape:try", "shape:macro", "shape:tail-noargs", "shape:deref-shared-pending", "shape:eval", "shape:background-env-writer", "finally_probe_ok", "probe:deep-dive-unwound-after-cancellation", "alloc_after_cancel_judged", "shape:nested-handler-probe", "shape:handler-cut-short"],
@@ -137,7 +137,7 @@ PROPS = {
         "level_note": "Trusts the reference model (about 80 lines) and the canonical printer. Faults inside finally bodies are not generated (the statement does not say what they do). Single-threaded: no race binary.",
         "rule": "one run = one seeded try-nest program (depth <= 5, up to ~60 nodes: probe!/probe-raw! sites, macro-expansion-time probes and throws, trace! effects incl. the value the catch "
                 "symbol resolves to in handlers, finally bodies and after the form, throws of 24 kinds of values including code-looking lists and symbols and collections that contain them, throws raised inside a swap! update function,  body-less try forms, calls through 1-3 "
-                "function levels, apply, a Go builtin that calls back and wraps the callback's error in an error of its own, user and library macros, let shadowing the catch symbol) executed under the fault-free plan, EVERY single-fault plan (site x {error, %w-wrapped error, "
+                "function levels, apply, a Go builtin that calls back and wraps the callback's error in an error of its own, the value expression of a macro definition, user and library macros, let shadowing the catch symbol) executed under the fault-free plan, EVERY single-fault plan (site x {error, %w-wrapped error, "
                 "panic with an error - for raw builtins where an enclosing try body recovers it -, panic with a non-error value, lisp value thrown from Go, budget timeout: the probe waits on the "
                 "fake clock until the context it was handed ends}) and 2 (thorough: 12) drawn multi-fault plans, each under a one-hour simulated deadline. evaluations counts runs (programs); "
                 "plans_executed counts executions. non-trivial = the program has at least one probe site and a fault actually fired; distinct = distinct program text",
